@@ -297,24 +297,27 @@ def ObjFirst {X : Type} : X → Option X → List (Call X) → Prop
     | some g => x = g ∧ ObjFirst lo lg t
     | none => x = lo ∧ ObjFirst lo (some x) t
 
-def ObjFirst.dec {X : Type} [DecidableEq X] :
-    (lo : X) → (lg : Option X) → (cs : List (Call X)) → Decidable (ObjFirst lo lg cs)
-  | _, _, [] => isTrue trivial
-  | _, lg, .obj x :: t => ObjFirst.dec x lg t
-  | lo, lg, .con x :: t =>
-    have : Decidable (ObjFirst lo lg t) := ObjFirst.dec lo lg t
-    (inferInstance : Decidable (x = lo ∧ ObjFirst lo lg t))
-  | lo, _, .grad x :: t =>
-    have : Decidable (ObjFirst lo (some x) t) := ObjFirst.dec lo (some x) t
-    (inferInstance : Decidable (x = lo ∧ ObjFirst lo (some x) t))
-  | lo, some g, .cgrad x :: t =>
-    have : Decidable (ObjFirst lo (some g) t) := ObjFirst.dec lo (some g) t
-    (inferInstance : Decidable (x = g ∧ ObjFirst lo (some g) t))
-  | lo, none, .cgrad x :: t =>
-    have : Decidable (ObjFirst lo (some x) t) := ObjFirst.dec lo (some x) t
-    (inferInstance : Decidable (x = lo ∧ ObjFirst lo (some x) t))
+/-- Executable form of `ObjFirst`. -/
+def objFirstB {X : Type} [DecidableEq X] : X → Option X → List (Call X) → Bool
+  | _, _, [] => true
+  | _, lg, .obj x :: t => objFirstB x lg t
+  | lo, lg, .con x :: t => decide (x = lo) && objFirstB lo lg t
+  | lo, _, .grad x :: t => decide (x = lo) && objFirstB lo (some x) t
+  | lo, lg, .cgrad x :: t =>
+    match lg with
+    | some g => decide (x = g) && objFirstB lo lg t
+    | none => decide (x = lo) && objFirstB lo (some x) t
+
+theorem objFirstB_iff {X : Type} [DecidableEq X] :
+    ∀ (cs : List (Call X)) (lo : X) (lg : Option X), objFirstB lo lg cs = true ↔ ObjFirst lo lg cs
+  | [], _, _ => by simp [objFirstB, ObjFirst]
+  | .obj x :: t, lo, lg => by simp [objFirstB, ObjFirst, objFirstB_iff t]
+  | .con x :: t, lo, lg => by simp [objFirstB, ObjFirst, objFirstB_iff t]
+  | .grad x :: t, lo, lg => by simp [objFirstB, ObjFirst, objFirstB_iff t]
+  | .cgrad x :: t, lo, some g => by simp [objFirstB, ObjFirst, objFirstB_iff t]
+  | .cgrad x :: t, lo, none => by simp [objFirstB, ObjFirst, objFirstB_iff t]
 
 instance {X : Type} [DecidableEq X] (lo : X) (lg : Option X) (cs : List (Call X)) :
-    Decidable (ObjFirst lo lg cs) := ObjFirst.dec lo lg cs
+    Decidable (ObjFirst lo lg cs) := decidable_of_iff _ (objFirstB_iff cs lo lg)
 
 end OMV.C21
